@@ -15,6 +15,7 @@ import os
 import random
 import time
 import traceback
+from pathlib import Path
 from concurrent.futures import ProcessPoolExecutor
 from dataclasses import dataclass, field
 from typing import Any, Callable, Optional, Sequence
@@ -139,6 +140,16 @@ def discharge(law: Law, shape, pid: str, replay_ref: str) -> Ob:
     try:
         case = law.build(shape, gen)
     except Exception as e:
+        tb = traceback.extract_tb(e.__traceback__)
+        inner = tb[-1].filename if tb else ""
+        from .core import PKG as _PKG
+        if inner.startswith(str(_PKG)) and not isinstance(e, AssertionError):
+            # the REAL code raised on generic inputs of a shape inside the clause's domain: the clause (which states a value) fails
+            ob = Ob(name, REFUTED, "exec-generic", (time.time() - t0) * 1000,
+                    f"the real code raised {type(e).__name__}: {e} (at {Path(inner).name}:{tb[-1].lineno}) on generic inputs of this shape, "
+                    "where the clause states a value", _shape_str(shape))
+            ob.replay = {"reproduced": True, "script": _replay_script(replay_ref, law.name, shape, "__raises__")}
+            return ob
         return Ob(name, FAULT, "symx", (time.time() - t0) * 1000,
                   f"harness error on generic inputs: {type(e).__name__}: {e}\n{traceback.format_exc()[-600:]}")
     if case.raises is not None:
@@ -351,7 +362,7 @@ def _replay_script(replay_ref: str, law_name: str, shape, pt) -> str:
         "from vf.symx import replay_law\n"
         "replay_law(%r, %r, %r, %r)\n" % (str(os.path.dirname(os.path.dirname(os.path.abspath(__file__)))), replay_ref,
                                          law_name, shape,
-                                         None if pt is None else {k: str(v) for k, v in pt.items()}))
+                                         None if pt is None else pt if isinstance(pt, str) else {k: str(v) for k, v in pt.items()}))
 
 
 def replay_law(replay_ref: str, law_name: str, shape, pt):
@@ -359,6 +370,15 @@ def replay_law(replay_ref: str, law_name: str, shape, pt):
     import importlib
     mod = importlib.import_module(replay_ref)
     law = next(l for l in mod.laws() if l.name == law_name)
+    if pt == "__raises__":
+        try:
+            law.build(shape, GenericGen())
+        except AssertionError:
+            raise
+        except Exception as e:
+            raise AssertionError(f"{law_name} shape {shape}: the real code raised {type(e).__name__}: {e} on generic inputs where the clause states a value")
+        print("the real code returns a value on generic inputs of this shape")
+        return
     if pt is None:
         case = law.build(shape, GenericGen())
         try:
